@@ -19,6 +19,8 @@ mod ffi {
         pub fn len_owned_str(v: Box<str>) -> usize { v.len() }
         pub fn sum_opt_owned(v: Option<Box<[u16]>>) -> u32 { v.map(|v| v.iter().map(|x| *x as u32).sum()).unwrap_or(7) }
         pub fn peek(&self, other: Option<&Tok>) -> u32 { self.0 + other.map(|t| t.0).unwrap_or(0) }
+        pub fn spell(&self, n: u8, w: &mut diplomat_runtime::DiplomatWrite) { use core::fmt::Write; for i in 0..n { let _ = w.write_char((b'a' + (self.0 as u8 + i) % 26) as char); } }
+        pub fn spell_str(&self, n: u8, w: &mut diplomat_runtime::DiplomatWrite) { use core::fmt::Write; let s: String = (0..n).map(|i| (b'a' + (self.0 as u8 + i) % 26) as char).collect(); let _ = w.write_str(&s); }
     }
     impl Holder {
         pub fn new(id: u32) -> Box<Holder> { Box::new(Holder { id, cb: None }) }
@@ -60,6 +62,7 @@ C_PRE = r'''
 #include "Tok.h"
 #include "Holder.h"
 void* diplomat_alloc(size_t size, size_t align);
+void diplomat_free(void* ptr, size_t size, size_t align);
 void verif_event(uint32_t kind, uint32_t id) { printf(" %s%u", kind == 1 ? "drop" : kind == 2 ? "hdrop" : "idrop", id); }
 typedef struct Cb { uint32_t id; int alive; int calls; } Cb;
 static Cb cbs[4096];
@@ -83,7 +86,19 @@ def gen_history(rng, n):
         return regs[i]
     for _ in range(n):
         r = rng.random()
-        if r < 0.18:
+        if rng.random() < 0.08 and toks:
+            # a Rust-backed growable writeable owned by the foreign side: several pieces (growth while already holding data), read back, destroyed
+            i = rng.choice(list(toks)); cap = rng.choice([0, 1, 8, 8, 16]); pieces = [rng.choice([0, 1, 3, 5, 6, 9, 20]) for _ in range(rng.choice([1, 2, 2, 3, 4]))]
+            want = "".join("".join(chr(97 + (i + k) % 26) for k in range(n)) for n in pieces)
+            calls = " ".join(f"Tok_spell{rng.choice(['', '_str'])}(t{i}, {n}, w);" for n in pieces)
+            steps.append((f"{{ DiplomatWrite* w = diplomat_buffer_write_create({cap}); {calls} if (diplomat_buffer_write_len(w) != {len(want)} || "
+                          f"memcmp(diplomat_buffer_write_get_bytes(w), \"{want}\", {len(want)}) != 0) printf(\" BADWRITE\"); diplomat_buffer_write_destroy(w); }}", [f"OAsRef {i}"], []))
+        elif rng.random() < 0.05:
+            # buffers the foreign side allocates through the runtime and releases itself (e.g. an argument it never passed on): every
+            # size, including empty ones, goes back to the allocator it came from
+            k = rng.choice([0, 0, 1, 7, 64]); a = rng.choice([1, 2, 4, 8]); k -= k % a
+            steps.append((f"{{ void* b = diplomat_alloc({k}, {a}); if (!b) printf(\" NULLALLOC\"); memset(b, 3, {k}); diplomat_free(b, {k}, {a}); }}", [], []))
+        elif r < 0.18:
             i = fresh(); toks[i] = True
             steps.append((f"Tok* t{i} = Tok_new({i});", [f"OMkBox {i}"], []))
         elif r < 0.26:
@@ -193,7 +208,7 @@ def run(ctx, spec_prop="C03"):
             line = lines[si] if si < len(lines) else f"op {si}: MISSING"
             got = line.split(":", 1)[1].split() if ":" in line else ["MISSING"]
             obs.append(got)
-            if got != ev and viol < 3:
+            if got != ev and len(ctx.violations) < 3:
                 viol += 1
                 ctx.violation("direct:lifecycle", {"history": [s[0] for s in steps[:si + 1]], "what":
                               f"operation #{si} `{stmt[:120]}` produced events {got}, exactly-once ownership requires {ev}"}, True)
@@ -205,7 +220,7 @@ def run(ctx, spec_prop="C03"):
                 flat.append(int(m.group(1)) if m else 99999)
         mops = [o for (_, ops, _) in steps for o in ops]
         goals.append("agree_own_flat " + clist(mops) + "%nat " + "[" + ";".join(map(str, flat)) + "]%nat")
-    if (asan or r.returncode != 0) and viol < 3:
+    if (asan or r.returncode != 0) and len(ctx.violations) < 3:
         ctx.violation("direct:asan", {"what": "AddressSanitizer/LeakSanitizer report or crash while running lifecycle histories through the C API",
                                       "report": r.stderr[-2500:], "rc": r.returncode}, True)
     return goals, nh, nops
@@ -332,11 +347,11 @@ def run_cpp_callbacks(ctx):
             nops += 1
             line = lines[si] if si < len(lines) else f"op {si}: MISSING"
             got = line.split(":", 1)[1].split() if ":" in line else ["MISSING"]
-            if got != ev and viol < 2:
+            if got != ev and len(ctx.violations) < 2:
                 viol += 1
                 ctx.violation("direct:cpp-callback-lifecycle", {"history": [s[0] for s in steps[:si + 1]], "what":
                               f"operation #{si} `{stmt}` produced events {got}; a callback handed to Rust is released exactly once, when Rust drops it: {ev}"}, True)
-    if ("AddressSanitizer" in r.stderr or "LeakSanitizer" in r.stderr or r.returncode != 0) and viol < 2:
+    if ("AddressSanitizer" in r.stderr or "LeakSanitizer" in r.stderr or r.returncode != 0) and len(ctx.violations) < 2:
         ctx.violation("direct:asan-cpp", {"what": "AddressSanitizer/LeakSanitizer report or crash while running callback histories through the C++ API",
                                           "report": r.stderr[-2500:], "rc": r.returncode}, True)
     return nh, nops
